@@ -1,0 +1,15 @@
+//go:build !verif
+
+package mangos
+
+// Verification ledger hooks; without the build tag "verif" they compile to nothing.
+
+const (
+	verifEvNew = iota
+	verifEvReuse
+	verifEvClone
+	verifEvFree
+	verifEvRelease
+)
+
+func verifLedger(int, *Message, int) {}
